@@ -1126,9 +1126,9 @@ impl TransactionBuilder {
         let mut self_copy = self.clone();
 
         // we need some value for these for it to be a a valid transaction
-        // but since we're only calculating the difference between the fee of two transactions
-        // it doesn't matter what these are set as, since it cancels out
-        self_copy.set_final_fee(BigNum::zero());
+        // the same placeholder as `min_fee()`: with a requested minimum fee the two estimates are
+        // compared against it, so their fee fields must have the width `min_fee()` assumes
+        self_copy.set_final_fee((0x1_00_00_00_00u64).into());
 
         let fee_before = min_fee(&self_copy)?;
         let aligned_fee_before = self.fee_request.get_new_fee(fee_before);
